@@ -276,7 +276,7 @@ func c14Helpers(rc *RuleCtx) {
 			if fn == nil || !ci.Common().IsInvoke() {
 				return
 			}
-			switch fn.Name() {
+			switch nm(fn) {
 			case "Stat", "Lstat", "OpenFile", "ReadDir":
 				if ci.Common().Value == ssa.Value(f.Params[0]) {
 					if fn.Name() == "Stat" {
@@ -339,7 +339,7 @@ func c14Helpers(rc *RuleCtx) {
 			if !ci.Common().IsInvoke() || ci.Common().Value != ssa.Value(f.Params[0]) {
 				return
 			}
-			switch fn.Name() {
+			switch nm(fn) {
 			case "Stat", "OpenFile":
 			default:
 				return
